@@ -11,6 +11,9 @@ pub mod c05;
 pub mod c06;
 pub mod c07;
 pub mod c08;
+pub mod c09;
+pub mod c10;
+pub mod fxgen;
 pub mod c17;
 pub mod c18;
 pub mod c19;
@@ -25,6 +28,8 @@ pub fn make(id: &str) -> Option<Box<dyn Prop>> {
         "C06" => Some(Box::new(c06::C06::new())),
         "C07" => Some(Box::new(c07::C07::new())),
         "C08" => Some(Box::new(c08::C08::new())),
+        "C09" => Some(Box::new(c09::C09::new())),
+        "C10" => Some(Box::new(c10::C10::new())),
         "C17" => Some(Box::new(c17::C17::new())),
         "C18" => Some(Box::new(c18::C18::new())),
         "C19" => Some(Box::new(c19::C19::new())),
